@@ -13,10 +13,16 @@ Events: a changeset arrives (`offer`), the `max_wait` interval fires (`tick`), a
 finishes with `Ok` or `Err` (`batchDone`).  After every event the real loop goes back to its top
 and runs the spawn `while`; `step` does the same (`loopTop`).
 
-The model follows the code AS IT IS.  `Params.evictDropped = false` is the eviction on drop as
-the code has it (keyed with the INCOMING change's actor; an entry whose seqs become empty keeps its
-key); `true` is the repaired rule (the dropped change's actor; emptied entries removed).  The
-driver runs the variant that matches the code.
+The model follows the code AS IT IS.  Two flags select between the code as it stood and as it was
+repaired; the driver runs the variant that matches the source (`Corro/Gen/IngestCode.lean`,
+regenerated on every run), the theorems cover both:
+* `Params.evictDropped = false`: the eviction on drop keyed with the INCOMING change's actor, an
+  entry whose seqs become empty keeps its key; `true` (repo commit f26a9aa): the dropped change's
+  actor, emptied entries removed;
+* `Params.clearOnFail = false`: a failed batch is only logged; `true` (repo commit bcbe93d): the
+  loop also clears `seen`.
+A `Full` changeset whose seq range is inverted is skipped right after the own-actor check (repo
+commit ada86b3; before it the loop panicked on such a changeset).
 Import-free apart from model files.
 -/
 import Corro.Model.Ranges
@@ -31,6 +37,7 @@ structure Params where
   maxConcurrent : Nat := 5   -- MAX_CONCURRENT
   keepSeen : Nat := 0        -- keep_seen_cache_size
   evictDropped : Bool := false
+  clearOnFail : Bool := false
 deriving Repr, DecidableEq, Inhabited
 
 /-- `keep_seen_cache_size` as the code derives it from `processing_queue_len` -/
@@ -93,10 +100,15 @@ def evictOne (fixed : Bool) (dseqs : Option (Nat × Nat)) (sn : Seen) (k : Key) 
   if sn.hasKey k then
     match dseqs with
     | some r =>
-      let sn' := sn.modify k (fun rs => RSet.remove rs r)
-      if fixed && ((sn'.get? k).getD []).isEmpty then sn'.swapRemove k else sn'
+      if fixed && (((sn.modify k (fun rs => RSet.remove rs r)).get? k).getD []).isEmpty then
+        (sn.modify k (fun rs => RSet.remove rs r)).swapRemove k
+      else sn.modify k (fun rs => RSet.remove rs r)
     | none => sn.swapRemove k
   else sn
+
+/-- `for v in dropped_change.versions() { … seen.entry((actor, v)) … }` -/
+def evictAll (fixed : Bool) (d : Item) (actor : Nat) (sn : Seen) : Seen :=
+  (versionsOf d).foldl (fun sn v => evictOne fixed d.seqs sn (actor, v)) sn
 
 /-! ### state -/
 
@@ -135,13 +147,19 @@ def spawnCond (p : Params) (s : State) : Bool :=
   (decide (s.bufCost ≥ p.maxChangesChunk) || (!s.queue.isEmpty && s.inflight.isEmpty)) &&
     decide (s.inflight.length < p.maxConcurrent)
 
+/-- one `join_set.spawn(process_multiple_changes(..))` of the batch taken off the front of the queue -/
+def spawned (p : Params) (s : State) : State :=
+  { s with
+    queue := (takeBatch p.maxChangesChunk 0 s.queue).2.1
+    inflight := s.inflight ++ [(takeBatch p.maxChangesChunk 0 s.queue).1]
+    bufCost := s.bufCost - (takeBatch p.maxChangesChunk 0 s.queue).2.2 }
+
 def spawnLoop (p : Params) : Nat → State → State
   | 0, s => s
   | fuel + 1, s =>
     if spawnCond p s then
-      let r := takeBatch p.maxChangesChunk 0 s.queue
-      if r.1.isEmpty then s
-      else spawnLoop p fuel { s with queue := r.2.1, inflight := s.inflight ++ [r.1], bufCost := s.bufCost - r.2.2 }
+      if (takeBatch p.maxChangesChunk 0 s.queue).1.isEmpty then s
+      else spawnLoop p fuel (spawned p s)
     else s
 
 /-- every iteration takes at least one changeset off the queue -/
@@ -154,42 +172,57 @@ def dropOldest (p : Params) (s : State) (incoming : Item) : State :=
   match s.queue with
   | [] => s
   | d :: rest =>
-    let actor := if p.evictDropped then d.site else incoming.site
     { s with
       queue := rest
-      seen := (versionsOf d).foldl (fun sn v => evictOne p.evictDropped d.seqs sn (actor, v)) s.seen
+      seen := evictAll p.evictDropped d (if p.evictDropped then d.site else incoming.site) s.seen
       bufCost := s.bufCost - cost d
       droppedItems := s.droppedItems ++ [d] }
 
-/-- does the loop enqueue this changeset (own-actor skip, `seen` lookup, bookkeeping check)? -/
+/-- "received an invalid change, seqs start is greater than seqs end" -/
+def inverted : Item → Bool
+  | .full _ _ lo hi _ _ => decide (hi < lo)
+  | .empty .. => false
+
+/-- does the loop enqueue this changeset (own-actor skip, inverted-range skip, `seen` lookup,
+bookkeeping check)? -/
 def accepts (s : State) (it : Item) : Bool :=
-  !(it.site == s.node.id) && !(suppresses s.seen it) && !(held s.node it)
+  !(it.site == s.node.id) && !(inverted it) && !(suppresses s.seen it) && !(held s.node it)
+
+/-- "drop old items when the queue is full" -/
+def shed (p : Params) (s : State) (it : Item) : State :=
+  if s.queue.length ≥ p.maxQueueLen then dropOldest p s it else s
+
+/-- insertion into `seen`, `push_back`, cost -/
+def enqueue (s : State) (it : Item) : State :=
+  { s with seen := record s.seen it, queue := s.queue ++ [it], bufCost := s.bufCost + cost it }
 
 /-- the body of the loop for one received changeset (before going back to the top) -/
 def offer (p : Params) (s : State) (it : Item) : State :=
-  if accepts s it then
-    let s1 := if s.queue.length ≥ p.maxQueueLen then dropOldest p s it else s
-    { s1 with seen := record s1.seen it, queue := s1.queue ++ [it], bufCost := s1.bufCost + cost it }
+  if accepts s it then enqueue (shed p s it) it else s
+
+/-- tick, first half: "we can process this right away" -/
+def flush (p : Params) (s : State) : State :=
+  if s.bufCost < p.maxChangesChunk ∧ s.queue ≠ [] ∧ s.inflight.length < p.maxConcurrent then
+    { s with inflight := s.inflight ++ [s.queue], queue := [], bufCost := 0 }
   else s
 
-/-- the tick branch: flush when below the chunk size, trim of `seen` -/
-def tick (p : Params) (s : State) : State :=
-  let s1 :=
-    if s.bufCost < p.maxChangesChunk ∧ s.queue ≠ [] ∧ s.inflight.length < p.maxConcurrent then
-      { s with inflight := s.inflight ++ [s.queue], queue := [], bufCost := 0 }
-    else s
-  if s1.seen.length > p.maxQueueLen then
-    { s1 with seen := s1.seen.drop (s1.seen.length - p.keepSeen) }
-  else s1
+/-- tick, second half: `seen.drain(..seen.len() - keep_seen_cache_size)` when the cache is too long -/
+def trim (p : Params) (s : State) : State :=
+  if s.seen.length > p.maxQueueLen then { s with seen := s.seen.drop (s.seen.length - p.keepSeen) } else s
+
+/-- the tick branch -/
+def tick (p : Params) (s : State) : State := trim p (flush p s)
 
 /-- `join_set.join_next()`: batch `i` (in spawn order) finished.  `Ok`: it went through
-`process_multiple_changes` (= `Node.deliver`); `Err`: only logged. -/
-def batchDone (s : State) (i : Nat) (ok : Bool) : State :=
+`process_multiple_changes` (= `Node.deliver`); `Err` (or a join error): logged, and with
+`clearOnFail` the whole `seen` cache is cleared. -/
+def batchDone (p : Params) (s : State) (i : Nat) (ok : Bool) : State :=
   match s.inflight[i]? with
   | none => s
   | some b =>
     if ok then { s with inflight := s.inflight.eraseIdx i, node := s.node.deliver b, delivered := s.delivered ++ [b] }
-    else { s with inflight := s.inflight.eraseIdx i, failed := s.failed ++ [b] }
+    else { s with inflight := s.inflight.eraseIdx i, failed := s.failed ++ [b],
+                  seen := if p.clearOnFail then [] else s.seen }
 
 inductive Event where
   | offer (it : Item) (bcast : Bool)
@@ -200,7 +233,7 @@ deriving Repr, Inhabited
 def step (p : Params) (s : State) : Event → State
   | .offer it _ => loopTop p (offer p s it)
   | .tick => loopTop p (tick p s)
-  | .batchDone i ok => loopTop p (batchDone s i ok)
+  | .batchDone i ok => loopTop p (batchDone p s i ok)
 
 def run (p : Params) (s : State) (evs : List Event) : State := evs.foldl (step p) s
 
